@@ -1,247 +1,175 @@
-(* C05_Generated.v — equivalence of the GoLite translation of
-   verifier.revocationFinalResult (theories/C05_Gen.v, regenerated from /repo
-   by `vh-gen` on every run, docs/GOLITE.md) with the C05 model
-   (C05_Model.final_result).
+(* C05_Generated.v — the code's own functions against the C05 model.
 
-   The generated function is partial (None = run-time panic of the Go code):
-   it indexes certChain with the indexes of certResults and dereferences the
-   result pointers. Theorem C05_gen_revocationFinalResult_spec characterises
-   it on ALL inputs by an index-wise fold; C05_gen_revocationFinalResult_equiv
-   shows that on inputs within the validator contract (one non-nil result per
-   certificate, non-nil server results) it returns exactly what the model's
-   final_result returns. Certificates are opaque; Subject.String() is an
-   oracle [subj]. *)
-From Coq Require Import List Bool String Ascii NArith ZArith Lia.
-From NV Require Import Base GoLib C05_Model C05_Gen.
+   theories/C05_Gen.v is re-translated from the Go sources of /repo by `vh-gen`
+   (GoLite, docs/GOLITE.md) on every run; the theorems below are about those
+   generated definitions, for ALL their inputs. Proofs: theories/C05_GenProofs.v.
+
+   Translated: verifier.checkRevocationResults, verifier.revocationFinalResult.
+   Certificates are opaque ([C]); Subject.String() is an oracle [subj] (any function).
+   Not translated (GoLite refuses the comparison of an interface value with nil):
+   verifier.verifyRevocation itself; [gen_aggregate] composes the two generated
+   functions the way its lines 625-646 do (check -> inconclusive; switch on the verdict).
+
+   Reading a Go answer as the model's input: [abstracts x results chain] says that
+   x_results x is the slice entry by entry (nil -> None, Result 1/2/0/3/other ->
+   ROK/RNonRevokable/RUnknown/RRevoked/ROther, methods and server results as annotations)
+   and x_chain x the subjects of the chain. None as a result = the Go code panics. *)
+From Coq Require Import List Bool String Ascii NArith ZArith.
+From NV Require Import Base GoLib C05_Model C05_Gen C05_GenProofs.
 Import ListNotations.
 Local Open Scope string_scope.
-Local Open Scope list_scope.
 
-Section Cert.
-Variable C : Type.
-Variable subj : C -> string.
+(* ---------- checkRevocationResults = the model's [complete] ---------- *)
 
-Notation gen := (gen_verifier_revocationFinalResult C subj).
-Notation loop1 := (gen_verifier_revocationFinalResult_loop1 C subj).
+Theorem C05_gen_checkRevocationResults_equiv :
+  forall (C : Type) (subj : C -> string) x results chain, abstracts C subj x results chain ->
+    is_none (gen_verifier_checkRevocationResults C results chain) = complete x.
+Proof. exact gen_check_complete. Qed.
+Print Assumptions C05_gen_checkRevocationResults_equiv.
 
-(* result.Result as the model's rres *)
-Definition rres_of (z : Z) : rres :=
-  if (z =? 1)%Z then ROK else if (z =? 2)%Z then RNonRevokable
-  else if (z =? 0)%Z then RUnknown else if (z =? 3)%Z then RRevoked else ROther.
+(* the same on the code's values: no error iff one non-nil entry per certificate *)
+Theorem C05_gen_checkRevocationResults_spec :
+  forall (C : Type) (results : list (ptr result_CertRevocationResult)) (chain : list C),
+    is_none (gen_verifier_checkRevocationResults C results chain)
+    = Nat.eqb (List.length results) (List.length chain) && forallb (fun p => is_some (ptr_val p)) results.
+Proof. exact gen_check_spec. Qed.
+Print Assumptions C05_gen_checkRevocationResults_spec.
 
-(* the state of the Go loop *)
-Definition gstate := (Z * Z * string * bool * string)%type.
+(* ---------- revocationFinalResult ---------- *)
 
-Definition gupd (st : gstate) (r : result_CertRevocationResult) (c : C) : gstate :=
-  let '(fin, nok, prob, rf, rs) := st in
-  let z := CertRevocationResult_Result r in
-  if (z =? 1)%Z || (z =? 2)%Z then (fin, (nok + 1)%Z, prob, rf, rs)
-  else if (z =? 3)%Z then (z, nok, subj c, true, subj c)
-  else (z, nok, subj c, rf, rs).
-
-Definition nonnil_servers (r : result_CertRevocationResult) : bool :=
-  forallb (fun p => is_some (ptr_val p)) (CertRevocationResult_ServerResults r).
-
-(* one iteration, for index i: None = the Go code panics *)
-Definition gstep (results : list (ptr result_CertRevocationResult)) (chain : list C)
-           (st : gstate) (i : Z) : option gstate :=
-  match list_get chain i, list_get results i with
-  | Some c, Some p =>
-      match ptr_val p with
-      | Some r => if nonnil_servers r then Some (gupd st r c) else None
-      | None => None
-      end
-  | _, _ => None
-  end.
-
-Fixpoint gfold results chain (idxs : list Z) (st : gstate) : option gstate :=
-  match idxs with
-  | [] => Some st
-  | i :: rest => match gstep results chain st i with
-                 | Some st' => gfold results chain rest st'
-                 | None => None
-                 end
-  end.
-
-Definition gfinish (n : Z) (st : gstate) : Z * string :=
-  let '(fin, nok, prob, rf, rs) := st in
-  let '(f, p) := if rf then (3%Z, rs) else (fin, prob) in
-  if (nok =? n)%Z then (1%Z, p) else (f, p).
-
-(* the inner loop over the server results only logs: it panics on a nil entry *)
-Lemma servers_loop K r l :
-  gen_verifier_revocationFinalResult_loop2 K r l
-  = if forallb (fun p => is_some (ptr_val p)) l then K tt else None.
-Proof.
-  induction l as [|p l IH]; [reflexivity|].
-  cbn [gen_verifier_revocationFinalResult_loop2 forallb].
-  destruct (ptr_val p) as [sv|]; cbn [is_some andb]; [|reflexivity].
-  destruct (negb (is_none (ServerResult_Error sv))); [|exact IH].
-  destruct ((CertRevocationResult_RevocationMethod r =? 3)%Z && (ServerResult_RevocationMethod sv =? 1)%Z); exact IH.
-Qed.
-
-Lemma loop1_gfold results chain : forall idxs fin nok prob rf rs,
-  loop1 results chain idxs fin nok prob rf rs
-  = match gfold results chain idxs (fin, nok, prob, rf, rs) with
-    | Some st => Some (gfinish (list_len results) st)
-    | None => None
-    end.
-Proof.
-  induction idxs as [|i rest IH]; intros fin nok prob rf rs.
-  - cbn [gen_verifier_revocationFinalResult_loop1 gfold gfinish].
-    destruct rf; destruct (nok =? list_len results)%Z; reflexivity.
-  - cbn [gen_verifier_revocationFinalResult_loop1 gfold]. unfold gstep.
-    destruct (list_get chain i) as [c|]; [|reflexivity].
-    destruct (list_get results i) as [p|]; [|reflexivity].
-    destruct (ptr_val p) as [r|]; [|reflexivity].
-    rewrite servers_loop. unfold nonnil_servers.
-    destruct (forallb (fun p0 => is_some (ptr_val p0)) (CertRevocationResult_ServerResults r)); [|reflexivity].
-    unfold gupd.
-    destruct ((CertRevocationResult_Result r =? 1)%Z || (CertRevocationResult_Result r =? 2)%Z); [apply IH|].
-    destruct (CertRevocationResult_Result r =? 3)%Z; apply IH.
-Qed.
-
+(* all inputs, including those on which the Go code panics (None) *)
 Theorem C05_gen_revocationFinalResult_spec :
-  forall results chain,
-    gen results chain
-    = match gfold results chain (zrange_down (list_len results - 1) 0) (0%Z, 0%Z, "", false, "") with
+  forall (C : Type) (subj : C -> string) results chain,
+    gen_verifier_revocationFinalResult C subj results chain
+    = match gfold C subj results chain (zrange_down (list_len results - 1) 0) (0%Z, 0%Z, "", false, "") with
       | Some st => Some (gfinish (list_len results) st)
       | None => None
       end.
-Proof. intros results chain. unfold gen_verifier_revocationFinalResult. apply loop1_gfold. Qed.
-
-(* ---------- against the model, within the validator contract ---------- *)
-
-(* the model's view of a state *)
-Definition acc_of (st : gstate) (a : acc) : Prop :=
-  let '(fin, nok, prob, rf, rs) := st in
-  rres_of fin = a_final a /\ nok = Z.of_nat (a_numOK a) /\ prob = a_prob a /\ rf = a_revFound a /\ rs = a_revSubj a.
-
-Lemma rres_is_ok z : C05_Model.is_ok (rres_of z) = ((z =? 1)%Z || (z =? 2)%Z).
-Proof. unfold rres_of. destruct (z =? 1)%Z; [reflexivity|]. destruct (z =? 2)%Z; [reflexivity|].
-       destruct (z =? 0)%Z; [reflexivity|]. destruct (z =? 3)%Z; reflexivity. Qed.
-
-Lemma rres_is_revoked z : ((z =? 1)%Z || (z =? 2)%Z) = false -> is_revoked (rres_of z) = (z =? 3)%Z.
-Proof.
-  unfold rres_of. intros H. apply orb_false_iff in H. destruct H as [H1 H2]. rewrite H1, H2.
-  destruct (z =? 0)%Z eqn:E0; [apply Z.eqb_eq in E0; subst z; reflexivity|].
-  destruct (z =? 3)%Z; reflexivity.
-Qed.
-
-Lemma gupd_step st a r c :
-  acc_of st a -> acc_of (gupd st r c) (step a (rres_of (CertRevocationResult_Result r), subj c)).
-Proof.
-  destruct st as [[[[fin nok] prob] rf] rs]. destruct a as [af an ap arf ars].
-  unfold acc_of, gupd, step. cbn [a_final a_numOK a_prob a_revFound a_revSubj].
-  intros [H1 [H2 [H3 [H4 H5]]]]. subst.
-  rewrite rres_is_ok.
-  destruct ((CertRevocationResult_Result r =? 1)%Z || (CertRevocationResult_Result r =? 2)%Z) eqn:Eok.
-  - cbn. repeat split; try assumption; try reflexivity. lia.
-  - rewrite (rres_is_revoked _ Eok).
-    destruct (CertRevocationResult_Result r =? 3)%Z; cbn; repeat split; reflexivity.
-Qed.
-
-(* the inputs within the contract: elements paired index-wise *)
-Definition in_contract (results : list (ptr result_CertRevocationResult)) (chain : list C) : Prop :=
-  List.length results = List.length chain
-  /\ Forall (fun p => exists r, ptr_val p = Some r /\ nonnil_servers r = true) results.
-
-Definition model_results (results : list (ptr result_CertRevocationResult)) : list rres :=
-  map (fun p => match ptr_val p with
-                | Some r => rres_of (CertRevocationResult_Result r)
-                | None => ROther
-                end) results.
-
-(* folding over indexes = folding over the paired elements *)
-Lemma gfold_elems results chain : forall (ps : list (ptr result_CertRevocationResult)) (cs : list C) idxs st a,
-  List.length ps = List.length cs ->
-  Forall (fun p => exists r, ptr_val p = Some r /\ nonnil_servers r = true) ps ->
-  Forall2 (fun i pc => list_get results i = Some (fst pc) /\ list_get chain i = Some (snd pc)) idxs (combine ps cs) ->
-  acc_of st a ->
-  exists st', gfold results chain idxs st = Some st'
-              /\ acc_of st' (fold_left step (combine (model_results ps) (map subj cs)) a).
-Proof.
-  induction ps as [|p ps IH]; intros cs idxs st a Hl Hf H2 Ha.
-  - cbn in H2. inversion H2; subst. exists st. split; [reflexivity|exact Ha].
-  - destruct cs as [|c cs]; [discriminate Hl|]. cbn [combine] in H2.
-    inversion H2 as [|i pc idxs' rest [Hr Hc] H2']; subst. cbn [fst snd] in Hr, Hc.
-    inversion Hf as [|? ? [r [Hp Hn]] Hf']; subst.
-    cbn [gfold]. unfold gstep. rewrite Hc, Hr, Hp, Hn.
-    cbn [model_results map combine fold_left]. rewrite Hp.
-    apply (IH cs idxs' (gupd st r c) _); [cbn in Hl; lia|exact Hf'|exact H2'|apply gupd_step; exact Ha].
-Qed.
-
-Lemma forall2_rev {A B} (R : A -> B -> Prop) l1 l2 : Forall2 R l1 l2 -> Forall2 R (rev l1) (rev l2).
-Proof.
-  induction 1; [constructor|]. cbn. apply Forall2_app; [assumption|]. constructor; [assumption|constructor].
-Qed.
-
-Lemma index_pairs (ps : list (ptr result_CertRevocationResult)) (cs : list C) :
-  List.length ps = List.length cs ->
-  forall results chain off, 
-    (forall k, (k < List.length ps)%nat -> nth_error results (off + k) = nth_error ps k /\ nth_error chain (off + k) = nth_error cs k) ->
-    Forall2 (fun i pc => list_get results i = Some (fst pc) /\ list_get chain i = Some (snd pc))
-            (map Z.of_nat (seq off (List.length ps))) (combine ps cs).
-Proof.
-  revert cs. induction ps as [|p ps IH]; intros cs Hl results chain off H; [constructor|].
-  destruct cs as [|c cs]; [discriminate Hl|]. cbn [List.length seq map combine].
-  constructor.
-  - cbn [fst snd]. rewrite !list_get_nth. destruct (H 0%nat) as [H1 H2]; [cbn; lia|].
-    rewrite Nat.add_0_r in H1, H2. rewrite H1, H2. split; reflexivity.
-  - apply IH; [cbn in Hl; lia|]. intros k Hk. destruct (H (S k)) as [H1 H2]; [cbn; lia|].
-    replace (S off + k)%nat with (off + S k)%nat by lia. exact (conj H1 H2).
-Qed.
-
-Theorem C05_gen_revocationFinalResult_equiv :
-  forall results chain, in_contract results chain ->
-    exists z s, gen results chain = Some (z, s)
-                /\ (rres_of z, s) = final_result (model_results results) (map subj chain).
-Proof.
-  intros results chain [Hl Hf]. rewrite C05_gen_revocationFinalResult_spec.
-  unfold list_len. rewrite zrange_down_zero.
-  set (n := List.length results).
-  assert (H2 : Forall2 (fun i pc => list_get results i = Some (fst pc) /\ list_get chain i = Some (snd pc))
-                       (rev (map Z.of_nat (seq 0 n))) (rev (combine results chain))).
-  { apply forall2_rev. apply index_pairs; [exact Hl|]. intros k _. split; reflexivity. }
-  (* the reversed pairs are again a combine of two lists of equal length *)
-  assert (Hrev : rev (combine results chain) = combine (rev results) (rev chain)).
-  { clear -Hl. revert chain Hl. induction results as [|p ps IH]; intros [|c cs] Hl; try discriminate; [reflexivity|].
-    cbn [combine rev]. rewrite IH by (cbn in Hl; lia).
-    assert (L : List.length (rev ps) = List.length (rev cs)) by (rewrite !rev_length; cbn in Hl; lia).
-    clear -L. revert L. generalize (rev ps) (rev cs). induction l as [|x l IH]; intros [|y l0] L; try discriminate; [reflexivity|].
-    cbn. rewrite IH by (cbn in L; lia). reflexivity. }
-  rewrite Hrev in H2.
-  destruct (gfold_elems results chain (rev results) (rev chain) (rev (map Z.of_nat (seq 0 n))) (0%Z, 0%Z, "", false, "") acc0) as [st' [Hg Ha]].
-  - rewrite !rev_length. exact Hl.
-  - apply Forall_rev. exact Hf.
-  - exact H2.
-  - cbn. repeat split; reflexivity.
-  - rewrite Hg. destruct st' as [[[[fin nok] prob] rf] rs].
-    unfold final_result.
-    assert (Hm : combine (model_results (rev results)) (map subj (rev chain))
-                 = rev (combine (model_results results) (map subj chain))).
-    { unfold model_results. rewrite !map_rev.
-      clear -Hl. set (f := fun p => match ptr_val p with Some r => rres_of (CertRevocationResult_Result r) | None => ROther end).
-      assert (L : List.length (map f results) = List.length (map subj chain)) by (rewrite !map_length; exact Hl).
-      revert L. generalize (map f results) (map subj chain). clear.
-      induction l as [|x l IH]; intros [|y l0] L; try discriminate; [reflexivity|].
-      cbn [combine rev]. rewrite <- IH by (cbn in L; lia).
-      assert (L' : List.length (rev l) = List.length (rev l0)) by (rewrite !rev_length; cbn in L; lia).
-      revert L'. generalize (rev l) (rev l0). clear. induction l as [|a l IH]; intros [|b l0] L; try discriminate; [reflexivity|].
-      cbn. rewrite IH by (cbn in L; lia). reflexivity. }
-    rewrite Hm in Ha.
-    set (a := fold_left step (rev (combine (model_results results) (map subj chain))) acc0) in *.
-    destruct Ha as [H1 [H3 [H4 [H5 H6]]]].
-    unfold gfinish. fold n.
-    assert (Hn : (nok =? Z.of_nat n)%Z = Nat.eqb (a_numOK a) (List.length (model_results results))).
-    { unfold model_results. rewrite map_length. fold n. subst nok.
-      destruct (Nat.eqb_spec (a_numOK a) n) as [->|N]; [apply Z.eqb_refl|apply Z.eqb_neq; lia]. }
-    rewrite Hn. subst rf rs prob.
-    destruct (a_revFound a); destruct (Nat.eqb (a_numOK a) (List.length (model_results results)));
-      eexists; eexists; (split; [reflexivity|]); try reflexivity; rewrite <- H1; reflexivity.
-Qed.
-
-End Cert.
-
+Proof. exact gen_final_spec. Qed.
 Print Assumptions C05_gen_revocationFinalResult_spec.
+
+(* within the validator contract (one non-nil result per certificate, non-nil server results):
+   exactly the model's final_result *)
+Theorem C05_gen_revocationFinalResult_equiv :
+  forall (C : Type) (subj : C -> string) results chain, in_contract C results chain ->
+    exists z s, gen_verifier_revocationFinalResult C subj results chain = Some (z, s)
+                /\ (rres_of z, s) = final_result (model_results results) (map subj chain).
+Proof. exact gen_final_equiv. Qed.
 Print Assumptions C05_gen_revocationFinalResult_equiv.
+
+(* whenever the lengths agree (what checkRevocationResults establishes first): it panics exactly
+   when an entry is nil or has a nil server result, and otherwise returns the model's verdict *)
+Theorem C05_gen_revocationFinalResult_total :
+  forall (C : Type) (subj : C -> string) results chain, List.length results = List.length chain ->
+    match gen_verifier_revocationFinalResult C subj results chain with
+    | Some (z, s) => forallb entry_good results = true
+                     /\ (rres_of z, s) = final_result (model_results results) (map subj chain)
+    | None => forallb entry_good results = false
+    end.
+Proof. exact gen_final_total. Qed.
+Print Assumptions C05_gen_revocationFinalResult_total.
+
+(* ---------- the two together = the model's aggregation, on EVERY validator answer ---------- *)
+
+(* no contract hypothesis. The one difference is a finding about /repo: an answer that passes
+   checkRevocationResults but carries a nil *ServerResult makes revocationFinalResult (and so
+   Verify) panic (verifier.go:888); the model's input has no nil server results *)
+Theorem C05_gen_aggregate_total :
+  forall (C : Type) (subj : C -> string) x results chain, abstracts C subj x results chain ->
+    gen_aggregate C subj results chain
+    = if complete x && negb (servers_present results) then None else Some (model_aggregate x).
+Proof. exact gen_aggregate_total. Qed.
+Print Assumptions C05_gen_aggregate_total.
+
+(* on the model's input space (server results non-nil): the revocation entry xmodel computes is
+   what the code's two functions compute, whatever the answer (short, long, nil entries, any values) *)
+Theorem C05_gen_aggregate_equiv :
+  forall (C : Type) (subj : C -> string) x results chain, abstracts C subj x results chain ->
+    servers_present results = true ->
+    x_action x <> Skip -> x_val x <> 4%N -> x_err x = false ->
+    xo_result (xmodel x) = gen_aggregate C subj results chain.
+Proof. exact gen_aggregate_xmodel. Qed.
+Print Assumptions C05_gen_aggregate_equiv.
+
+(* [model_aggregate] is the place in xmodel where the same decision is made *)
+Theorem C05_gen_model_aggregate_place : forall x, x_action x <> Skip -> x_val x <> 4%N -> x_err x = false ->
+  xo_result (xmodel x) = Some (model_aggregate x).
+Proof. exact xmodel_aggregate. Qed.
+Print Assumptions C05_gen_model_aggregate_place.
+
+(* ---------- the property's clauses transported onto the code's values ---------- *)
+
+(* C05_full_pass_iff: passes iff exactly one result per certificate, each non-nil, OK or non-revokable *)
+Theorem C05_gen_pass_iff :
+  forall (C : Type) (subj : C -> string) results chain,
+    gen_aggregate C subj results chain = Some Pass <->
+    List.length results = List.length chain /\
+    Forall (fun p => exists r, ptr_val p = Some r /\ nonnil_servers r = true /\
+                               (CertRevocationResult_Result r = 1%Z \/ CertRevocationResult_Result r = 2%Z)) results.
+Proof. exact gen_pass_iff. Qed.
+Print Assumptions C05_gen_pass_iff.
+
+(* C05_full_pass_only_if, the clause as worded: passes only if EVERY certificate of the chain has a
+   result and it is OK (1) or non-revokable (2) *)
+Theorem C05_gen_pass_only_if :
+  forall (C : Type) (subj : C -> string) results chain,
+    gen_aggregate C subj results chain = Some Pass ->
+    forall k c, nth_error chain k = Some c ->
+      exists p r, nth_error results k = Some p /\ ptr_val p = Some r /\
+                  (CertRevocationResult_Result r = 1%Z \/ CertRevocationResult_Result r = 2%Z).
+Proof. exact gen_pass_only_if. Qed.
+Print Assumptions C05_gen_pass_only_if.
+
+(* C05_full_incomplete_answer: fewer, more, or a nil entry -> inconclusive (no pass, no panic) *)
+Theorem C05_gen_incomplete_answer :
+  forall (C : Type) (subj : C -> string) results (chain : list C),
+    (List.length results <> List.length chain \/ exists p, In p results /\ ptr_val p = None) ->
+    gen_aggregate C subj results chain = Some Inconclusive.
+Proof. exact gen_incomplete. Qed.
+Print Assumptions C05_gen_incomplete_answer.
+
+(* C05_full_revoked: a revoked result (3) in a complete answer -> revoked, naming the LEAF-MOST revoked
+   certificate, whatever the others report *)
+Theorem C05_gen_revoked :
+  forall (C : Type) (subj : C -> string) results chain, in_contract C results chain ->
+    forall k p r c, nth_error results k = Some p -> ptr_val p = Some r -> CertRevocationResult_Result r = 3%Z ->
+      (forall j p' r', (j < k)%nat -> nth_error results j = Some p' -> ptr_val p' = Some r' ->
+                       CertRevocationResult_Result r' <> 3%Z) ->
+      nth_error chain k = Some c ->
+      gen_aggregate C subj results chain = Some (Revoked (subj c)).
+Proof. exact gen_revoked. Qed.
+Print Assumptions C05_gen_revoked.
+
+(* C05_full_unknown: no revoked result but one that is neither OK nor non-revokable (unknown or any
+   other integer) -> unknown, naming the leaf-most such certificate *)
+Theorem C05_gen_unknown :
+  forall (C : Type) (subj : C -> string) results chain, in_contract C results chain ->
+    (forall p r, In p results -> ptr_val p = Some r -> CertRevocationResult_Result r <> 3%Z) ->
+    forall k p r c, nth_error results k = Some p -> ptr_val p = Some r ->
+      ~ (CertRevocationResult_Result r = 1%Z \/ CertRevocationResult_Result r = 2%Z) ->
+      (forall j p' r', (j < k)%nat -> nth_error results j = Some p' -> ptr_val p' = Some r' ->
+                       CertRevocationResult_Result r' = 1%Z \/ CertRevocationResult_Result r' = 2%Z) ->
+      nth_error chain k = Some c ->
+      gen_aggregate C subj results chain = Some (Unknown (subj c)).
+Proof. exact gen_unknown. Qed.
+Print Assumptions C05_gen_unknown.
+
+(* where C05_never_panics stops being about the code: the only panic left after fix d78db00 *)
+Theorem C05_gen_panic_iff :
+  forall (C : Type) (subj : C -> string) results chain,
+    gen_aggregate C subj results chain = None <->
+    List.length results = List.length chain /\ (forall p, In p results -> ptr_val p <> None) /\
+    exists p r q, In p results /\ ptr_val p = Some r /\
+                  In q (CertRevocationResult_ServerResults r) /\ ptr_val q = None.
+Proof. exact gen_panic_iff. Qed.
+Print Assumptions C05_gen_panic_iff.
+
+(* non-vacuity: the panicking answer exists (one certificate, result OK, one nil server result) *)
+Example C05_gen_example_nil_server : forall (C : Type) (subj : C -> string) (c : C),
+  gen_aggregate C subj [PNew (mk_CertRevocationResult 1 [PNil] 0)] [c] = None
+  /\ gen_aggregate C subj [PNew (mk_CertRevocationResult 1 [] 0)] [c] = Some Pass
+  /\ gen_aggregate C subj [PNew (mk_CertRevocationResult 0 [] 0); PNew (mk_CertRevocationResult 3 [] 0)] [c; c]
+     = Some (Revoked (subj c))
+  /\ gen_aggregate C subj [PNew (mk_CertRevocationResult 1 [] 0); PNil] [c; c] = Some Inconclusive
+  /\ gen_aggregate C subj [] [c] = Some Inconclusive.
+Proof. intros C subj c. repeat split; reflexivity. Qed.
